@@ -42,6 +42,10 @@ constructor = XPath2Parser.constructor
 @constructor('ENTITY')
 @constructor('anyURI')
 def cast__string_types(self: XPathConstructor, value: ta.AtomicType) -> str | AnyURI:
+    if not isinstance(value, (str, AnyURI, UntypedAtomic)):
+        # the value is cast to xs:string first (e.g. 'true' for a boolean, not str(True))
+        value = self.string_value(value)
+
     try:
         result = cast(str | AnyURI, self.type_class.make(value))
     except ValueError as err:
